@@ -236,3 +236,37 @@ Proof.
   split; [apply dk_db_ok|]. split; [apply dk_db_ok|]. split; [cbn; lia|]. split; [reflexivity|].
   intros. vm_compute. reflexivity.
 Qed.
+
+
+(* topk / bottomk end to end: the same composition for topk_correct *)
+Section E2E_TOPK.
+  Variable re_match : string -> string -> bool.
+  Variable parse_float : string -> option Q.
+  Variable json_get : string -> list string -> string.
+  Variable hash_labels : LogqlSem.labels -> Z.
+  Hypothesis hash_inj : forall a b, hash_labels a = hash_labels b -> a = b.
+  Hypothesis hash_nonneg : forall a, 0 <= hash_labels a.
+  Variable fp : lmap -> N.
+  Variable to_float : string -> Qc.
+  Variable quantile_o : string -> list Qc -> Qc.
+  Variable varpop stddevpop : list Qc -> Qc.
+  Hypothesis fp_inj : forall a b, fp a = fp b -> a = b.
+
+  Theorem topk_correct_db c d t fin p base :
+    analyze_m15 (STopK t) = false -> plan_metric (STopK t) fin = Some p -> script_ok (tk_inner t) -> 0 < c_step_ns c ->
+    db_ok c d -> fp_of_labels_ok d -> 0 <= c_from_ns c -> no_drop (sel_pipeline (log_part (STopK t))) = true ->
+    Permutation base (base_of re_match parse_float json_get hash_labels (STopK t) c d) ->
+    match sem fp to_float quantile_o varpop stddevpop p c base with
+    | Some out =>
+      exists inner kept, inner_ref to_float quantile_o varpop stddevpop (tk_inner t) (map entry_of base) = Some (map strip inner) /\
+                         topk_spec (tk_len t) (tk_top t) inner kept /\
+                         map strip out = ref_step (c_step_ns c) (get_duration (STopK t)) (ref_cmp (tk_cmp t) (map strip kept))
+    | None => inner_ref to_float quantile_o varpop stddevpop (tk_inner t) (map entry_of base) = None
+    end.
+  Proof.
+    intros Ha Hp Hok Hs Hdb Hfl Hc Hnd Hperm.
+    apply (topk_correct fp to_float quantile_o varpop stddevpop fp_inj c base t fin p Ha Hp Hok Hs).
+    - eapply consistent_perm; [exact Hperm|]. now apply (base_consistent re_match parse_float json_get hash_labels hash_inj hash_nonneg _ c d).
+    - eapply nonneg_perm; [exact Hperm|]. now apply base_nonneg.
+  Qed.
+End E2E_TOPK.
